@@ -5,9 +5,12 @@ import MosnVerif.Gen.Route
 Mirrors pkg/router/{routers_impl.go, virtualhost.go, http_rule.go, rpc_rule.go, variable_rule.go, dsl_rule.go,
 configutility.go} **after** the four `fix:` commits recorded in KNOWN_FINDINGS.txt.
 `findVirtualHost`, the lookup `findHighestPriorityIndex`, the sort comparison `Less`, the matcher functions
-(`StringMatch.Matches`, header conjunction, http / rpc / variable rule `Match`) and the two entry loops
-`GetRouteFromEntries` / `GetAllRoutesFromEntries` are **regenerated** from the Go source (`Gen.Route.*`) and used here
-as they are; the table construction (`generateHostWithPortConfig`), `NewRouteBase` and the DSL rule are hand-modelled.
+(`StringMatch.Matches`, header conjunction, http / rpc / variable rule `Match`, `matchRoute`), the header-matcher
+constructors (`NewKeyValueData`, `CreateCommonHeaderMatcher`, `CreateHTTPHeaderMatcher`, `NewBaseHTTPRouteRule`,
+`CreateRPCRule`) and the two entry loops `GetRouteFromEntries` / `GetAllRoutesFromEntries` are **regenerated** from the
+Go source (`Gen.Route.*`) and used here as they are; the table construction (`generateHostWithPortConfig`), the choice
+of rule kind in `NewRouteBase` and the DSL rule are hand-modelled.  The request's header map is modelled per
+implementation kind (`Req.kind`, `Req.hdr` in Model/RouteBase.lean).
 `Spec` (bottom of the file) is the documented behaviour written declaratively from the configuration alone.
 -/
 namespace MosnVerif.Model.Route
